@@ -97,6 +97,7 @@ class Proj:
         self.shift_leaves = {}        # name -> [(startDt, endDt|None)]: leaves declared inside the shift
         self.default_hours = None     # hours dict written in the project header: the default of everybody without hours of their own
         self.global_rate = None       # 'rate' at global scope: the default of every resource that states none
+        self.flag_decl = []           # flag names declared at global scope ('flags red, blue')
         self.scenarios = scenarios    # None or nested list [("plan",[("delayed",[])])]
         self.extra = ""              # extra text appended (reports ...)
 
@@ -195,6 +196,8 @@ class Proj:
         if self.scenarios:
             scen(self.scenarios, "  ")
         L.append("}")
+        if self.flag_decl:
+            L.append("flags %s" % ", ".join(self.flag_decl))
         if self.global_rate is not None:
             L.append("rate %s" % self.global_rate)
         for a, b in self.vac:
